@@ -1,17 +1,18 @@
 #!/bin/bash
-# tools/seedeval.sh <Cxx> <A|B> <check> [<check>...]
-# Applies seeded change /tmp/seed/<Cxx>/OUT/patch<A|B>.diff in the scratch worktree
+# tools/seedeval.sh <Cxx> <A|B|C|D> <check> [<check>...]
+# Applies seeded change /tmp/seed/<Cxx>/OUT/patch<A|B|C|D>.diff in the scratch worktree
 # /tmp/seed/<Cxx>/wt, runs the given checks' quick tier against that worktree
 # (VERIF_REPO redirection), reverts, and prints one line per check.
 # Evidence files are restored and replay files produced by the run are moved
 # to /tmp/seed/<Cxx>/eval_<letter>/ so that /verif stays as committed.
 set -u
+root=${SEEDROOT:-/tmp/seed}
 prop=$1; letter=$2; shift 2
-wt=/tmp/seed/$prop/wt
-out=/tmp/seed/$prop/eval_$letter
+wt=$root/$prop/wt
+out=$root/$prop/eval_$letter
 mkdir -p "$out"
 cd /verif || exit 2
-patch=/tmp/seed/$prop/OUT/patch$letter.diff
+patch=$root/$prop/OUT/patch$letter.diff
 [ -f "$patch" ] || patch=/verif/seeded/$prop$letter/patch.diff
 if [ ! -d "$wt" ]; then git -C /repo worktree add -q --detach "$wt" HEAD || exit 2; fi
 git -C "$wt" checkout -q -- . || exit 2
